@@ -34,6 +34,7 @@ func concFiles() map[string]string {
 		"chain.tw":           "@if(zero)a@elseif(zero)b@elseif(zero == 1)c@elseif(zero)d@else e{{ who }}@end|@if(zero)x@elseif(gid > 1000)y@elseif(zero)z@else w@end",
 		"errors/500.tw":      "<custom error page>",
 		"errors/broken.tw":   "broken error page {{ reason }}",
+		"ptr.tw":             "{{ acct.owner }} {{ acct.plan.name }} {{ acct.plan.seats }} {{ acct.next.owner }}",
 		"joinok.tw":          "{{ items.join(\"-\") }}|{{ items.join(who) }}|{{ [who, who, who].join(\", \") }}|{{ gid.decimal(\".\", 3) }}",
 		"joinbad.tw":         "{{ items.join(\"+\") }} then {{ items.join(gid) }}",
 		"badpass.tw":         "<ul>@each(v in items)<li>{{ v.pause() }} {{ who }}</li>{{ 6 / (v % 10 - 1) }}@end</ul>",
@@ -89,6 +90,7 @@ func concOps() []concOp {
 			return fmt.Sprintf("out=%s err=%v", out, err)
 		}},
 		// a built-in that fails after a sibling call succeeded, next to the same built-in succeeding elsewhere
+		{"String(ptr)", false, str("ptr")},
 		{"String(joinok)", false, str("joinok")},
 		{"String(joinbad)", false, str("joinbad")},
 		{"Response(joinbad)", false, resp("joinbad")},
@@ -121,6 +123,18 @@ func concOps() []concOp {
 			// (also a count of decimals larger than any asked for before)
 			src := fmt.Sprintf("mail%d@host%d.example @w%d {{ u.k%d }} {{ s.f }} {{ {zz%d: 1, aa: 2}.aa }} {{ 7.decimal(\",\", %d) }}", n, n, n, n, n, 17+n)
 			want := fmt.Sprintf("mail%d@host%d.example @w%d %d %d 2 7,%s", n, n, n, n, n, strings.Repeat("0", int(17+n)))
+			// a dump nested deeper than any before it (its text is not compared: no statement fixes it)
+			var deep any = n
+			for k := int64(0); k < 3+n/6 && k < 400; k++ {
+				if k%2 == 0 {
+					deep = []any{deep}
+				} else {
+					deep = map[string]any{"k": deep}
+				}
+			}
+			if dout, derr := textwire.EvaluateString("@dump(deep)", map[string]any{"deep": deep}); derr != nil || dout == "" {
+				return fmt.Sprintf("fresh names: @dump of a value nested %d deep gave (%d bytes, %v)", 3+n/6, len(dout), derr)
+			}
 			out, err := textwire.EvaluateString(src, map[string]any{"u": map[string]any{fmt.Sprintf("K%d", n): n}, "s": sv.Interface()})
 			if err != nil || out != want {
 				return fmt.Sprintf("fresh names: got (%q, %v), want %q", out, err, want)
@@ -142,6 +156,17 @@ func sortedChars(s string) string {
 
 var freshCounter atomic.Int64
 
+type concPlan struct {
+	Name  string
+	Seats int
+}
+
+type concAccount struct {
+	Owner string
+	Plan  *concPlan
+	Next  *concAccount
+}
+
 type opRecord struct {
 	g, op     int
 	call, ret int64
@@ -157,7 +182,7 @@ func init() {
 		Race:       true,
 		MaxWorkers: 6,
 		CPUBudget:  120,
-		Rule: "rounds of G in {2, 8, 32(,128)} goroutines x GOMAXPROCS in {1, 2, 16}, every goroutine issuing 200 operations drawn (seeded) from 25 concrete calls on one loaded tree - String of a layout+component-in-loop page, a loop page, an object/dump page, two pages failing at run time, a missing name, a shuffle() page; Response ok/failing/missing (error page through the string API); EvaluateString ok/failing; EvaluateFile; loops that fail in a later pass after producing output; renders without any data that assign names at top level (as integer, string, boolean, object) next to one that reads the name and must fail - with goroutine-specific data otherwise; a registered custom function called from inside the templates yields or sleeps 50us on a seeded schedule; every round also loads a tree without layouts and components right after a tree in another directory was used and makes its very first renders (failing ones included) concurrent. " +
+		Rule: "rounds of G in {2, 8, 32(,128)} goroutines x GOMAXPROCS in {1, 2, 16}, every goroutine issuing 200 operations drawn (seeded) from 26 concrete calls on one loaded tree - String of a layout+component-in-loop page, a loop page, an object/dump page, two pages failing at run time, a missing name, a shuffle() page; Response ok/failing/missing (error page through the string API); EvaluateString ok/failing; EvaluateFile; loops that fail in a later pass after producing output; renders without any data that assign names at top level (as integer, string, boolean, object) next to one that reads the name and must fail - with goroutine-specific data otherwise; a registered custom function called from inside the templates yields or sleeps 50us on a seeded schedule; every round also loads a tree without layouts and components right after a tree in another directory was used and makes its very first renders (failing ones included) concurrent. " +
 			"Oracles: the harness is built with the Go race detector (halt_on_error=0, log per process); after the rounds the log is parsed and every report with a frame inside the repository is a violation (de-duplicated by the pair of innermost repository frames); the recorded history (goroutine, operation, logical call/return stamps from one atomic counter, result) is checked offline against the stateless model: every result must equal what the same operation returned alone before the round (shuffle as a multiset). Evidence counts operations that overlapped an operation of a different kind. distinct_nontrivial = distinct (round, goroutine, operation) triples that overlapped another kind",
 		Assumptions: []string{
 			"only interleavings the scheduler produced; the race detector sees races between accesses that actually executed",
@@ -232,7 +257,10 @@ func init() {
 					for k := range items {
 						items[k] = g*10 + k
 					}
-					return map[string]any{"gid": g, "who": fmt.Sprintf("g%d", g), "items": items, "zero": 0}
+					// every goroutine brings pointers of its own (to structs, chained)
+					plan := &concPlan{Name: fmt.Sprintf("plan%d", g), Seats: g}
+					acct := &concAccount{Owner: fmt.Sprintf("owner%d", g), Plan: plan, Next: &concAccount{Owner: "next", Plan: plan}}
+					return map[string]any{"gid": g, "who": fmt.Sprintf("g%d", g), "items": items, "zero": 0, "acct": acct}
 				}
 				base := make([][]string, cfg.g)
 				for g := 0; g < cfg.g; g++ {
